@@ -60,6 +60,10 @@ def cases(tier, seed):
         out.append(dict(kind="ref", surfaces=surfs, flow=flow, _cost=1 + np_ ** 2 / 100.0))
         if k % 2 == 0:
             out.append(dict(kind="image2", surfaces=surfs, flow=flow, _cost=1 + np_ ** 2 / 200.0))
+        if k % 5 == 1:
+            # the same height supplied through an input in another unit
+            out.append(dict(kind="ref", surfaces=surfs, flow=flow, units=dict(height_agl=["ft", "km", "inch"][(k // 5) % 3]),
+                            _cost=1 + np_ ** 2 / 100.0))
     nl = 4 if tier == "quick" else 30
     for k in range(nl):
         surfs = rand_surfaces(rng, int(rng.choice([1, 2])))
@@ -83,14 +87,15 @@ def cases(tier, seed):
 
 
 def run_ref(c, o):
-    prob = zoo.build_aero(dict(surfaces=c["surfaces"], flow=c["flow"]), geom=False)
+    prob = zoo.build_aero(dict(surfaces=c["surfaces"], flow=c["flow"], units=c.get("units", {})), geom=False)
     zoo.run(prob)
     surfaces = prob._oas_surfaces
     st = vlmcompare.oas_states(prob, "aero.aero_states", surfaces)
     flow = dict(zoo.FLOW_DEFAULT)
     flow.update(c["flow"])
     ref = vlmcompare.reference(st, surfaces, flow, ground=True)
-    nz = vlmcompare.compare(o, st, ref, "ground", rtol=1e-9, tags=["nsurf=%d" % len(surfaces)])
+    tags = ["nsurf=%d" % len(surfaces)] + (["height_in_" + c["units"]["height_agl"]] if c.get("units") else [])
+    nz = vlmcompare.compare(o, st, ref, "ground", rtol=1e-9, tags=tags)
     free = vlmcompare.reference(st, surfaces, flow, ground=False)
     eff = np.abs(ref["F"] - free["F"]).max() / np.abs(free["F"]).max()
     o.info = dict(ground_effect_rel=float(eff), h=float(flow["height_agl"]))
